@@ -871,4 +871,188 @@ theorem binary_left_inverse (dim : Nat) (θ : List ℝ) (hl : θ.length = dim - 
 
 end BinaryLists
 
+section Ordered
+
+/-! ## OrderedSimplex -/
+
+/-- Σ_j l_j / j  with j the 1-based index starting at i -/
+noncomputable def H : List ℝ → Nat → ℝ
+  | [], _ => 0
+  | p :: r, i => p / (i : ℝ) + H r (i + 1)
+
+/-- Σ_j l_j (j - c + 1) / j -/
+noncomputable def T : List ℝ → Nat → Nat → ℝ
+  | [], _, _ => 0
+  | p :: r, i, c => p * ((i : ℝ) - c + 1) / (i : ℝ) + T r (i + 1) c
+
+theorem orderedValues_length (p : List ℝ) (i : Nat) : (orderedValues p i).length = p.length := by
+  induction p generalizing i with
+  | nil => simp [orderedValues]
+  | cons a r ih => simp [orderedValues, ih]
+
+theorem orderedValues_head (p : List ℝ) (i : Nat) :
+    (orderedValues p i).headD 0 = H p i := by
+  induction p generalizing i with
+  | nil => simp [orderedValues, H]
+  | cons a r ih =>
+    simp only [orderedValues, H, ScalarReal.zero_eq, ScalarReal.ofInt_eq, List.headD_cons]
+    rw [ih (i + 1)]; push_cast; ring
+
+theorem T_succ (l : List ℝ) (i c : Nat) (hi : 1 ≤ i) : T l i c = T l i (c + 1) + H l i := by
+  induction l generalizing i with
+  | nil => simp [T, H]
+  | cons a r ih =>
+    simp only [T, H]
+    rw [ih (i + 1) (by omega)]
+    have : (i : ℝ) ≠ 0 := by positivity
+    push_cast; field_simp; ring
+
+theorem orderedValues_sum (p : List ℝ) (i : Nat) (hi : 1 ≤ i) : (orderedValues p i).sum = T p i i := by
+  induction p generalizing i with
+  | nil => simp [orderedValues, T]
+  | cons a r ih =>
+    have hh := orderedValues_head r (i + 1)
+    simp only [orderedValues, List.sum_cons, ScalarReal.zero_eq, ScalarReal.ofInt_eq]
+    rw [hh, ih (i + 1) (by omega)]
+    simp only [T]
+    rw [T_succ r (i + 1) i (by omega)]
+    have : (i : ℝ) ≠ 0 := by positivity
+    push_cast; field_simp; ring
+
+theorem T_one (l : List ℝ) (i : Nat) (hi : 1 ≤ i) : T l i 1 = l.sum := by
+  induction l generalizing i with
+  | nil => simp [T]
+  | cons a r ih =>
+    simp only [T, List.sum_cons]
+    rw [ih (i + 1) (by omega)]
+    have : (i : ℝ) ≠ 0 := by positivity
+    push_cast; field_simp; ring
+
+/-- Σ v = Σ p -/
+theorem orderedValues_sum_eq (p : List ℝ) : (orderedValues p 1).sum = p.sum := by
+  rw [orderedValues_sum p 1 (le_refl _), T_one p 1 (le_refl _)]
+
+theorem H_nonneg (l : List ℝ) (i : Nat) (h : ∀ x ∈ l, 0 ≤ x) : 0 ≤ H l i := by
+  induction l generalizing i with
+  | nil => simp [H]
+  | cons a r ih =>
+    simp only [H]
+    have := ih (i + 1) (fun x m => h x (by simp [m]))
+    have := h a (by simp)
+    positivity
+
+def NonIncreasing : List ℝ → Prop
+  | [] => True
+  | [_] => True
+  | a :: b :: r => b ≤ a ∧ NonIncreasing (b :: r)
+
+theorem orderedValues_nonincreasing (p : List ℝ) (i : Nat) (h : ∀ x ∈ p, 0 ≤ x) :
+    NonIncreasing (orderedValues p i) ∧ ∀ v ∈ orderedValues p i, 0 ≤ v := by
+  induction p generalizing i with
+  | nil => simp [orderedValues, NonIncreasing]
+  | cons a r ih =>
+    have ha := h a (by simp)
+    have hr : ∀ x ∈ r, 0 ≤ x := fun x m => h x (by simp [m])
+    obtain ⟨ih1, ih2⟩ := ih (i + 1) hr
+    have hh := orderedValues_head r (i + 1)
+    have hH := H_nonneg r (i + 1) hr
+    have hdiv : 0 ≤ a / (i : ℝ) := by positivity
+    simp only [orderedValues, ScalarReal.zero_eq, ScalarReal.ofInt_eq]
+    rw [hh]
+    constructor
+    · cases hv : orderedValues r (i + 1) with
+      | nil => simp [NonIncreasing]
+      | cons v vs =>
+        rw [hv] at hh ih1
+        simp only [List.headD_cons] at hh
+        simp only [NonIncreasing]
+        refine ⟨?_, ih1⟩
+        push_cast; linarith
+    · intro v hv
+      simp only [List.mem_cons] at hv
+      rcases hv with rfl | hv
+      · push_cast; linarith
+      · exact ih2 v hv
+
+
+end Ordered
+
+section Ordered2
+
+theorem orderedToProbs_length (v : List ℝ) (i : Nat) : (orderedToProbs v i).length = v.length := by
+  induction v generalizing i with
+  | nil => simp [orderedToProbs]
+  | cons a r ih =>
+    cases r with
+    | nil => simp [orderedToProbs]
+    | cons b r' => simp [orderedToProbs, ih]
+
+theorem orderedValues_toProbs (v : List ℝ) (i : Nat) (hi : 1 ≤ i) :
+    orderedValues (orderedToProbs v i) i = v := by
+  have hne : ((i : ℤ) : ℝ) ≠ 0 := by push_cast; positivity
+  induction v generalizing i with
+  | nil => simp [orderedToProbs, orderedValues]
+  | cons a r ih =>
+    cases r with
+    | nil =>
+      simp only [orderedToProbs, orderedValues, List.headD_nil, ScalarReal.zero_eq, ScalarReal.ofInt_eq]
+      congr 1; field_simp; ring
+    | cons b r' =>
+      simp only [orderedToProbs, orderedValues, ScalarReal.ofInt_eq]
+      rw [ih (i + 1) (by omega) (by push_cast; positivity)]
+      simp only [List.headD_cons]
+      congr 1; field_simp; ring
+
+theorem orderedToProbs_values (p : List ℝ) (i : Nat) (hi : 1 ≤ i) :
+    orderedToProbs (orderedValues p i) i = p := by
+  have hne : ((i : ℤ) : ℝ) ≠ 0 := by push_cast; positivity
+  induction p generalizing i with
+  | nil => simp [orderedToProbs, orderedValues]
+  | cons a r ih =>
+    cases r with
+    | nil =>
+      simp only [orderedToProbs, orderedValues, List.headD_nil, ScalarReal.zero_eq, ScalarReal.ofInt_eq]
+      congr 1; field_simp; ring
+    | cons b r' =>
+      have ih' := ih (i + 1) (by omega) (by push_cast; positivity)
+      obtain ⟨v0, vr, hv⟩ : ∃ v0 vr, orderedValues (b :: r') (i + 1) = v0 :: vr := by
+        simp [orderedValues]
+      rw [orderedValues]
+      rw [hv] at ih' ⊢
+      simp only [List.headD_cons, orderedToProbs, ScalarReal.ofInt_eq]
+      rw [ih']
+      congr 1; field_simp; ring
+
+/-- strictly decreasing, last value positive -/
+def StrictDecrPos : List ℝ → Prop
+  | [] => True
+  | [a] => 0 < a
+  | a :: b :: r => b < a ∧ StrictDecrPos (b :: r)
+
+theorem orderedToProbs_pos (v : List ℝ) (i : Nat) (hi : 1 ≤ i) (h : StrictDecrPos v) :
+    AllPos (orderedToProbs v i) := by
+  induction v generalizing i with
+  | nil => simp [orderedToProbs, AllPos]
+  | cons a r ih =>
+    have hpos : (0 : ℝ) < ((i : ℤ) : ℝ) := by push_cast; positivity
+    cases r with
+    | nil =>
+      simp only [StrictDecrPos] at h
+      simp only [orderedToProbs, ScalarReal.ofInt_eq, AllPos, List.mem_singleton]
+      rintro x rfl; exact mul_pos hpos h
+    | cons b r' =>
+      simp only [StrictDecrPos] at h
+      intro x hx
+      simp only [orderedToProbs, ScalarReal.ofInt_eq, List.mem_cons] at hx
+      rcases hx with rfl | hx
+      · exact mul_pos hpos (by linarith [h.1])
+      · exact ih (i + 1) (by omega) h.2 x (by simpa [orderedToProbs] using hx)
+
+theorem orderedToProbs_sum (v : List ℝ) : (orderedToProbs v 1).sum = v.sum := by
+  conv_rhs => rw [← orderedValues_toProbs v 1 (le_refl _)]
+  rw [orderedValues_sum_eq]
+
+
+end Ordered2
+
 end Bpp.Simplex
